@@ -129,6 +129,8 @@ func errClass(err error) string {
 	switch {
 	case strings.Contains(m, "invalid close bracket position"), strings.Contains(m, "failed to parse count"):
 		return "err=parse"
+	case strings.Contains(m, "weight should not be negative"):
+		return "err=negweight"
 	case strings.Contains(m, "must follow a request"):
 		return "err=sleepfirst"
 	case strings.Contains(m, "not found"):
